@@ -7,7 +7,7 @@ From Crux Require Import Rt.Lang Rt.Rt.
 Import ListNotations.
 Set Implicit Arguments.
 
-Definition FUEL := 2000.
+Definition FUEL0 := 2000.   (* the fuel the generated case files run the model with *)
 
 (* ---------- observations ---------- *)
 Inductive rk := KNever | KOnce | KMany.
@@ -17,9 +17,10 @@ Definition oeff_of (e : effect) := mkOE (e_tag e) (e_val e) (e_maps e) (kind_of 
 Inductive obs :=
 | OEffects (l : list oeff)
 | OEvents (l : list event)
-| ODone (b : bool)
+| ODone (b : bool) (live : nat)    (* is_done(), and the number of tasks held afterwards (hook) *)
 | OResolve (code : nat)            (* 0 Ok | 1 Err Never | 2 Err FinishedMany | 3 no such request held *)
 | OCall (code : nat) (effs : list oeff) (applog : list event)   (* Core call: result code, returned effects, view *)
+| OPanic                           (* the implementation panicked (harness catch_unwind); never produced by the model *)
 | ONone.
 
 (* the shell's table of received requests, arrival order; None = the shell dropped it *)
@@ -57,6 +58,11 @@ Definition resolve_req (e : effect) (v : nat) (H : heap) : nat * effect * heap :
 Definition set_nth {A} (i : nat) (x : A) (l : list A) : list A :=
   firstn i l ++ match skipn i l with [] => [] | _ :: t => x :: t end.
 
+(* Everything below is parametric in the fuel handed to the runtime functions, so that the theorems
+   about hosts hold for every fuel and no proof ever has to normalise a concrete numeral. *)
+Section WithFuel.
+Variable FUEL : nat.
+
 (* ---------- direct host ---------- *)
 Record dstate := mkD { d_reqs : list rq; d_H : heap }.
 
@@ -72,7 +78,7 @@ Definition dstep (top : nat) (a : action) (st : dstate) : option (obs * dstate) 
   | AIsDone => match settle FUEL top H with None => None | Some H1 =>
       let cm := gcmd top H1 in
       let d := match c_eff cm, c_evs cm with [], [] => Nat.eqb (c_len cm) 0 | _, _ => false end in
-      Some (ODone d, mkD (d_reqs st) H1) end
+      Some (ODone d (c_len cm), mkD (d_reqs st) H1) end
   | AResolve tg v occ out =>
       match find_rq tg v occ 0 (d_reqs st) with
       | None => Some (OResolve 3, st)
@@ -247,6 +253,8 @@ Fixpoint crun (hs : handlers) (acts : list action) (k : core) : option (list obs
 Definition core0 := mkC H0 [] [] [] [] [] [].
 Definition under_core (hs : handlers) (acts : list action) : option (list obs) := crun hs acts core0.
 
+End WithFuel.
+
 (* ---------- decidable equality of observations (used by generated case files) ---------- *)
 Fixpoint list_eqb {A} (eqb : A -> A -> bool) (a b : list A) : bool :=
   match a, b with
@@ -265,7 +273,7 @@ Definition obs_eqb (a b : obs) : bool :=
   match a, b with
   | OEffects x, OEffects y => list_eqb oeff_eqb x y
   | OEvents x, OEvents y => list_eqb event_eqb x y
-  | ODone x, ODone y => Bool.eqb x y
+  | ODone x n, ODone y m => Bool.eqb x y && Nat.eqb n m
   | OResolve x, OResolve y => Nat.eqb x y
   | OCall c x l, OCall c' y l' => Nat.eqb c c' && list_eqb oeff_eqb x y && list_eqb event_eqb l l'
   | ONone, ONone => true
